@@ -258,6 +258,33 @@ def Coll.prims : Coll → List Prim
   | .commAllReduceMax => [.allreduce .MAX]
   | .commAllReduce => [.treeGather, .bcast]
 
+/-- WHEN a collective reads the caller's input relative to its own `barrier()`.  This matters for the
+idiom `ygm::sum(counter, world)` with asyncs outstanding whose handlers update `counter`: handlers run
+inside the barrier, so a function that reads its argument *after* the barrier folds the FINAL values.
+* `sum / min / max / prefix_sum` take `const T &value` and hand `&value` to `MPI_Allreduce / MPI_Exscan`
+  after `c.barrier()`: the referenced object is read **after the barrier**.
+* `logical_and / logical_or` take `bool value` BY VALUE: the argument is copied at the call, before the
+  barrier — for them the property can only speak about the value passed.
+* `is_same` takes `const T &to_check`, but reads it in `to_bcast = to_check`, and in `equals(to_check,
+  to_bcast)` right after the (barrier-less, blocking) `bcast` — both before `logical_and`'s barrier and
+  with no YGM progress in between: **at the call**.
+* `bcast` and the `comm::` members have no barrier at all: at the call. -/
+inductive InputRead where
+  | atCall | afterBarrier
+  deriving DecidableEq, Repr, Inhabited
+
+def Coll.inputRead : Coll → InputRead
+  | .sum | .min | .max | .prefixSum => .afterBarrier
+  | .logicalAnd | .logicalOr | .isSame => .atCall
+  | .bcast | .commAllReduceSum | .commAllReduceMin | .commAllReduceMax | .commAllReduce => .atCall
+
+/-- the per-rank values that enter the reduction, given the values the argument variables held when the
+function was called (`atCall`) and after all outstanding asyncs have been applied (`final`) -/
+def contributed {α : Type} (c : Coll) (atCall final : List α) : List α :=
+  match c.inputRead with
+  | .afterBarrier => final
+  | .atCall => atCall
+
 def Prim.isReduction : Prim → Bool
   | .allreduce _ | .exscan _ => true
   | _ => false
